@@ -327,3 +327,33 @@ M('C16', 'expired-flag-ignored', CSF,
         self.multi_signer""", ['is_expired'], 'signatures accepted for an expired round')
 M('C16', 'route-skips-authentication', 'mithril-aggregator/src/http_server/routes/signatures_routes.rs',
   '        if !single_signature.is_authenticated() {', '        if !single_signature.is_authenticated() && single_signature.party_id.is_empty() {', ['route'], 'unauthenticated signatures registered')
+
+# ---------------------------------------------------------------- C06
+REGF = STM + 'protocol/key_registration/register.rs'
+M('C06', 'ord-ignores-key', STM + 'protocol/key_registration/closed_registration_entry.rs',
+  """        self.stake.cmp(&other.stake).then(
+            self.verification_key_for_concatenation
+                .cmp(&other.verification_key_for_concatenation),
+        )""", """        self.stake.cmp(&other.stake)""", ['ord:'], 'equal-stake parties collapse / order by insertion')
+M('C06', 'leaf-omits-stake', STM + 'membership_commitment/merkle_tree/leaf.rs',
+  '        result[96..].copy_from_slice(&self.1.to_be_bytes());\n', '', ['MerkleTreeConcatenationLeaf.1'], 'stake not committed')
+M('C06', 'leaves-sorted-differently', REGF,
+  """        MerkleTree::new(
+            &self
+                .closed_registration_entries
+                .iter()
+                .filter_map(|entry| (*entry).clone().into())
+                .collect::<Vec<L>>(),
+        )""", """        let mut leaves = self
+            .closed_registration_entries
+            .iter()
+            .filter_map(|entry| (*entry).clone().into())
+            .collect::<Vec<L>>();
+        leaves.reverse();
+        MerkleTree::new(&leaves)""", ['regset:iter'], 'leaf order differs from slot order')
+M('C06', 'total-stake-unchecked', REGF,
+  """                acc.checked_add(entry.get_stake())
+                    .ok_or(RegisterError::TotalStakeOverflow {
+                        accumulated_stake: acc,
+                        stake: entry.get_stake(),
+                    })""", """                Ok::<u64, RegisterError>(acc.wrapping_add(entry.get_stake()))""", ['total-stake'], 'total stake wraps')
